@@ -462,6 +462,20 @@ pub fn run_c13(ctx: &Ctx) -> i32 {
         alphabet(u_names_small(), &[b"x"], 1, false),
         empty_init(false),
     ));
+    // overlay layers that are directories inside other filesystems (paths of different lengths),
+    // and a write layer whose directory does not exist (yet) when the overlay is first used
+    spaces.push(mk(
+        Cfg::Ov(vec![Cfg::sub(Cfg::Mem, "/rw"), Cfg::sub(Cfg::Mem, "/base/v1")]),
+        Order::Asc,
+        a3.clone(),
+        empty_init(false),
+    ));
+    spaces.push(mk(
+        Cfg::Ov(vec![Cfg::Sub(Box::new(Cfg::Mem), "/up".into(), false), Cfg::Mem]),
+        Order::Asc,
+        a3.clone(),
+        empty_init(false),
+    ));
     // names whose byte length minus a small constant falls inside a character
     let mb = Universe::new(
         "U_multibyte",
